@@ -14,30 +14,30 @@ import (
 // storeWriters: the closed set of SM sites that write or delete store keys, by key class.
 // value: prefix variable the key belongs to + reason.
 var storeWriters = map[string][2]string{
-	"keeper.Keeper.createAllianceValidatorInfo | Set(GetAllianceValidatorInfoKey)":   {"ValidatorInfoKey", "creates an empty validator record on first use"},
-	"keeper.Keeper.DeleteValidatorInfo | Delete(GetAllianceValidatorInfoKey)":        {"ValidatorInfoKey", "validator removed by staking (AfterValidatorRemoved)"},
-	"keeper.Keeper.SetValidator | Set(GetAllianceValidatorInfoKey)":                  {"ValidatorInfoKey", "persists validator shares / reward history"},
-	"keeper.Keeper.SetValidatorInfo | Set(GetAllianceValidatorInfoKey)":              {"ValidatorInfoKey", "dust reset and genesis import"},
-	"keeper.Keeper.SetDelegation | Set(GetDelegationKey)":                            {"DelegationKey", "persists a delegation"},
-	"keeper.Keeper.reduceDelegationShares | Delete(GetDelegationKey)":                {"DelegationKey", "position emptied"},
-	"keeper.Keeper.ClearDustDelegation | Delete(GetDelegationKey)":                   {"DelegationKey", "dust position removed"},
-	"keeper.Keeper.addRedelegation | Set(GetRedelegationKey)":                        {"RedelegationKey", "pending redelegation record"},
-	"keeper.Keeper.addRedelegation | Set(GetRedelegationIndexKey)":                   {"RedelegationByValidatorIndexKey", "by-source index of the record"},
-	"keeper.Keeper.queueRedelegation | Set(GetRedelegationQueueKey)":                 {"RedelegationQueueKey", "time queue of the record"},
-	"keeper.Keeper.DeleteRedelegation | Delete(GetRedelegationKey)":                  {"RedelegationKey", "record matured"},
-	"keeper.Keeper.DeleteRedelegation | Delete(GetRedelegationIndexKey)":             {"RedelegationByValidatorIndexKey", "record matured"},
-	"keeper.Keeper.CompleteRedelegations | Delete(iter.Key(RedelegationQueueKey))":   {"RedelegationQueueKey", "matured queue bucket"},
-	"keeper.Keeper.setQueuedUndelegations | Set(GetUndelegationQueueKey)":            {"UndelegationQueueKey", "unbonding bucket"},
-	"keeper.Keeper.setUnbondingIndexByVal | Set(GetUnbondingIndexKey)":               {"UndelegationByValidatorIndexKey", "per-validator index of a bucket"},
-	"keeper.Keeper.slashUndelegations | Set(ParseUnbondingIndexKeyToUndelegationKey#0)": {"UndelegationQueueKey", "slashed bucket written back under the key it was read from"},
+	"keeper.Keeper.createAllianceValidatorInfo | Set(GetAllianceValidatorInfoKey)":                            {"ValidatorInfoKey", "creates an empty validator record on first use"},
+	"keeper.Keeper.DeleteValidatorInfo | Delete(GetAllianceValidatorInfoKey)":                                 {"ValidatorInfoKey", "validator removed by staking (AfterValidatorRemoved)"},
+	"keeper.Keeper.SetValidator | Set(GetAllianceValidatorInfoKey)":                                           {"ValidatorInfoKey", "persists validator shares / reward history"},
+	"keeper.Keeper.SetValidatorInfo | Set(GetAllianceValidatorInfoKey)":                                       {"ValidatorInfoKey", "dust reset and genesis import"},
+	"keeper.Keeper.SetDelegation | Set(GetDelegationKey)":                                                     {"DelegationKey", "persists a delegation"},
+	"keeper.Keeper.reduceDelegationShares | Delete(GetDelegationKey)":                                         {"DelegationKey", "position emptied"},
+	"keeper.Keeper.ClearDustDelegation | Delete(GetDelegationKey)":                                            {"DelegationKey", "dust position removed"},
+	"keeper.Keeper.addRedelegation | Set(GetRedelegationKey)":                                                 {"RedelegationKey", "pending redelegation record"},
+	"keeper.Keeper.addRedelegation | Set(GetRedelegationIndexKey)":                                            {"RedelegationByValidatorIndexKey", "by-source index of the record"},
+	"keeper.Keeper.queueRedelegation | Set(GetRedelegationQueueKey)":                                          {"RedelegationQueueKey", "time queue of the record"},
+	"keeper.Keeper.DeleteRedelegation | Delete(GetRedelegationKey)":                                           {"RedelegationKey", "record matured"},
+	"keeper.Keeper.DeleteRedelegation | Delete(GetRedelegationIndexKey)":                                      {"RedelegationByValidatorIndexKey", "record matured"},
+	"keeper.Keeper.CompleteRedelegations | Delete(iter.Key(RedelegationQueueKey))":                            {"RedelegationQueueKey", "matured queue bucket"},
+	"keeper.Keeper.setQueuedUndelegations | Set(GetUndelegationQueueKey)":                                     {"UndelegationQueueKey", "unbonding bucket"},
+	"keeper.Keeper.setUnbondingIndexByVal | Set(GetUnbondingIndexKey)":                                        {"UndelegationByValidatorIndexKey", "per-validator index of a bucket"},
+	"keeper.Keeper.slashUndelegations | Set(ParseUnbondingIndexKeyToUndelegationKey#0)":                       {"UndelegationQueueKey", "slashed bucket written back under the key it was read from"},
 	"keeper.Keeper.CompleteUnbondings | Delete(iter.Key(keeper.Keeper.IterateUndelegationsByCompletionTime))": {"UndelegationQueueKey", "matured bucket paid"},
-	"keeper.Keeper.CompleteUnbondings | Delete(GetUnbondingIndexKey)":                {"UndelegationByValidatorIndexKey", "index of a paid entry"},
-	"keeper.Keeper.SetAsset | Set(GetAssetKey)":                                      {"AssetKey", "persists an asset"},
-	"keeper.Keeper.deleteAsset | Delete(GetAssetKey)":                                {"AssetKey", "asset removed by governance"},
-	"keeper.Keeper.QueueAssetRebalanceEvent | Set(AssetRebalanceQueueKey)":           {"AssetRebalanceQueueKey", "rebalance flag"},
-	"keeper.Keeper.ConsumeAssetRebalanceEvent | Delete(AssetRebalanceQueueKey)":      {"AssetRebalanceQueueKey", "rebalance flag consumed"},
-	"keeper.Keeper.setRewardWeightChangeSnapshot | Set(GetRewardWeightChangeSnapshotKey)": {"RewardWeightChangeSnapshotKey", "weight-change snapshot"},
-	"keeper.Keeper.SetParams | Set(ParamsKey)":                                       {"ParamsKey", "module parameters"},
+	"keeper.Keeper.CompleteUnbondings | Delete(GetUnbondingIndexKey)":                                         {"UndelegationByValidatorIndexKey", "index of a paid entry"},
+	"keeper.Keeper.SetAsset | Set(GetAssetKey)":                                                               {"AssetKey", "persists an asset"},
+	"keeper.Keeper.deleteAsset | Delete(GetAssetKey)":                                                         {"AssetKey", "asset removed by governance"},
+	"keeper.Keeper.QueueAssetRebalanceEvent | Set(AssetRebalanceQueueKey)":                                    {"AssetRebalanceQueueKey", "rebalance flag"},
+	"keeper.Keeper.ConsumeAssetRebalanceEvent | Delete(AssetRebalanceQueueKey)":                               {"AssetRebalanceQueueKey", "rebalance flag consumed"},
+	"keeper.Keeper.setRewardWeightChangeSnapshot | Set(GetRewardWeightChangeSnapshotKey)":                     {"RewardWeightChangeSnapshotKey", "weight-change snapshot"},
+	"keeper.Keeper.SetParams | Set(ParamsKey)":                                                                {"ParamsKey", "module parameters"},
 }
 
 type storeSite struct {
